@@ -8,6 +8,7 @@ import GapicModel.Driver.C07
 import GapicModel.Driver.C08
 import GapicModel.Driver.C09
 import GapicModel.Driver.C10
+import GapicModel.Driver.C12
 import GapicModel.Driver.C14
 import GapicModel.Driver.C15
 import GapicModel.Driver.C16
@@ -27,7 +28,7 @@ open Lean GapicModel
 namespace GapicModel.Driver
 
 def allOps : List (String × (Json → Except String Json)) :=
-  [("regex", opRegex)] ++ opsC02 ++ opsC03 ++ opsC04 ++ opsC05 ++ opsC06 ++ opsC07 ++ opsC08 ++ opsC09 ++ opsC10 ++ opsC14 ++ opsC15 ++ opsC16 ++ opsC17 ++ opsC18 ++ opsC19 ++ opsC20
+  [("regex", opRegex)] ++ opsC02 ++ opsC03 ++ opsC04 ++ opsC05 ++ opsC06 ++ opsC07 ++ opsC08 ++ opsC09 ++ opsC10 ++ opsC12 ++ opsC14 ++ opsC15 ++ opsC16 ++ opsC17 ++ opsC18 ++ opsC19 ++ opsC20
 
 def dispatch (j : Json) : Except String Json := do
   let op ← (← j.getObjVal? "op").getStr?
